@@ -99,6 +99,16 @@ def run_crash_workload(ctx, steps, tag, manual=0, power_loss=True, two_ks=False)
             push(lambda st, k1=k1, k2=k2, ksb=ksb: (st['a'].__setitem__(k1, '42'), st[ksb].__setitem__(k2, '42')), f'batch a:{k1} {ksb}:{k2}')
             if not manual:
                 flushed = len(states) - 1
+        elif s.startswith('B:'):
+            # a batch committed with an explicit durability level: durable when commit returns (sync levels) / OS-visible (buffer)
+            mode = s[2:]
+            k1, k2 = key(n + 1), key(n + 2); n += 2
+            bid = f'd{n}'
+            L += [f'batch {bid} begin', f'batch {bid} durability {mode}', f'batch {bid} insert a {k1} 44', f'batch {bid} insert a {k2} 44', f'batch {bid} commit']
+            push(lambda st, k1=k1, k2=k2: (st['a'].__setitem__(k1, '44'), st['a'].__setitem__(k2, '44')), f'durable batch({mode}) a:{k1},{k2}')
+            flushed = len(states) - 1
+            if mode in ('syncdata', 'syncall'):
+                synced = len(states) - 1
         elif s == 'c':
             L.append('clear a'); push(lambda st: st['a'].clear(), 'clear a')
             if not manual:
